@@ -53,12 +53,51 @@ EventBad(mode, a, b) ==
 LastOf(k)  == Rec[Starts[k] + RunLen(k) - 1]
 FinalBad(a, b) == IF a.ev = "End" /\ b.ev = "End" /\ a.final = b.final THEN {} ELSE {"final-differs"}
 
+\* "transparent" (C10): run A is uninterrupted, run B takes interrupts whose handlers save
+\* and restore what they use and return with RTI: same registers, condition codes,
+\* stack pointer, user memory and output at the end.
+TransparentBad(a, b) ==
+  IF ~(a.ev = "End" /\ b.ev = "End") THEN {"shape"}
+  ELSE IF a.final.athalt = 0 \/ b.final.athalt = 0 THEN {}      \* a run hit the step bound: not comparable
+  ELSE IF a.final.regs = b.final.regs
+     /\ a.final.psr % 8 = b.final.psr % 8
+     /\ (a.final.psr \div 32768) = (b.final.psr \div 32768)
+     /\ a.final.umemh = b.final.umemh
+     /\ a.final.disp = b.final.disp
+     /\ a.final.pc = b.final.pc
+     /\ a.final.hit_halt = b.final.hit_halt
+  THEN {} ELSE {"interrupt-not-transparent"}
+
+\* "trapmode" (C12): run A with virtual traps, run B with real traps, same user program.
+Msg(e) == CASE e = "AccessViolation"    -> <<10,45,45,45,32,65,99,99,101,115,115,32,118,105,111,108,97,116,105,111,110,32,45,45,45>>
+            [] e = "PrivilegeViolation" -> <<10,45,45,45,32,80,114,105,118,105,108,101,103,101,32,118,105,111,108,97,116,105,111,110,32,45,45,45>>
+            [] e \in {"IllegalOpcode", "InvalidInstrFormat"} -> <<10,45,45,45,32,73,108,108,101,103,97,108,32,111,112,99,111,100,101,32,45,45,45>>
+            [] OTHER -> <<>>
+TrapModeBad(a, b) ==
+  IF ~(a.ev = "End" /\ b.ev = "End") THEN {"shape"}
+  ELSE LET fa == a.final  fb == b.final IN
+       IF fa.lastres = "ok" /\ fa.hit_halt = 1
+       THEN \* the program halts under virtual traps
+            (IF fb.disp = fa.disp THEN {} ELSE {"real-traps-output-differs"})
+            \cup (IF \A i \in 1..6 : fb.regs[i] = fa.regs[i] THEN {} ELSE {"real-traps-registers-differ"})
+            \cup (IF fb.umemh = fa.umemh THEN {} ELSE {"real-traps-user-memory-differs"})
+            \cup (IF fb.lastres = "ok" /\ fb.hit_halt = 1 /\ fb.mcr = 0 THEN {} ELSE {"real-traps-no-halt"})
+       ELSE IF fa.lastres \in {"AccessViolation", "PrivilegeViolation", "IllegalOpcode", "InvalidInstrFormat"}
+       THEN (IF fb.disp = fa.disp \o Msg(fa.lastres) THEN {} ELSE {"exception-message-differs"})
+            \cup (IF fb.lastres = "ok" /\ fb.hit_halt = 1 THEN {} ELSE {"exception-no-halt"})
+       ELSE {}     \* bounded without halting, or another error: the property is silent
+
 Init == /\ pr \in { k \in 1..NRuns : k + 1 <= NRuns /\ Rec[Starts[k]].pairpos = "A" }
         /\ off = 0
         /\ bad = IF A(0).pair = "segments"
                  THEN (IF Strip(A(0)) = Strip(Bv(0)) THEN {} ELSE {"header"}) \cup FinalBad(LastOf(pr), LastOf(pr + 1))
+                 ELSE IF A(0).pair = "transparent"
+                 THEN (IF Strip(A(0)) = Strip(Bv(0)) THEN {} ELSE {"header"}) \cup TransparentBad(LastOf(pr), LastOf(pr + 1))
+                 ELSE IF A(0).pair = "trapmode"
+                 THEN (IF StripFlags(A(0)) = StripFlags(Bv(0)) /\ A(0).flags.real = 0 /\ Bv(0).flags.real = 1 THEN {} ELSE {"header"})
+                      \cup TrapModeBad(LastOf(pr), LastOf(pr + 1))
                  ELSE HeaderBad(A(0), Bv(0)) \cup (IF RunLen(pr) = RunLen(pr + 1) THEN {} ELSE {"length"})
-        /\ done = (A(0).pair = "segments")
+        /\ done = (A(0).pair \in {"segments", "transparent", "trapmode"})
 
 \* after a step that strict mode rejected the two machines legitimately differ
 Next == /\ bad = {} /\ ~done
